@@ -39,7 +39,8 @@ type task struct {
 	id        int
 	wake      chan struct{}
 	idleEpoch int   // >= 0: could not proceed when the change counter stood here
-	until     int64 // sleeping until this simulated time (ms); 0 = not sleeping
+	sleeping  bool
+	until     int64 // sleeping: until this simulated time (ms; may be negative: the clock can stand before 1970)
 	// rendezvous on an unbuffered channel
 	waitCh   uintptr
 	waitSend bool
@@ -182,7 +183,7 @@ func removeTask(t *task) {
 
 // canRetry: a blocked task has a reason to try again
 func canRetry(t *task) bool {
-	if t.until > 0 {
+	if t.sleeping {
 		return simMs() >= t.until
 	}
 	return t.matched || t.idleEpoch != epoch
@@ -315,18 +316,19 @@ func advanceUntilRunnable(except *task) *task {
 // advanceTime moves the simulated clock to the next timer or wake-up. false: there is none.
 func advanceTime() bool {
 	now := simMs()
-	var next int64 = -1
+	var next int64
+	found := false
 	for _, tm := range timers {
-		if tm.live && (next < 0 || tm.at < next) {
-			next = tm.at
+		if tm.live && (!found || tm.at < next) {
+			next, found = tm.at, true
 		}
 	}
 	for _, t := range tasks {
-		if t.until > 0 && (next < 0 || t.until < next) {
-			next = t.until
+		if t.sleeping && (!found || t.until < next) {
+			next, found = t.until, true
 		}
 	}
-	if next < 0 {
+	if !found {
 		return false
 	}
 	if next > now {
@@ -346,7 +348,7 @@ func reportDeadlock() {
 func reportDeadlockNoExit() {
 	if traceOn {
 		for _, t := range tasks {
-			trace("deadlock: task %d idleEpoch %d until %d matched %v waitCh %x", t.id, t.idleEpoch, t.until, t.matched, t.waitCh)
+			trace("deadlock: task %d idleEpoch %d sleeping %v until %d matched %v waitCh %x", t.id, t.idleEpoch, t.sleeping, t.until, t.matched, t.waitCh)
 		}
 	}
 	if !deadlock {
@@ -521,14 +523,14 @@ func sleepFor(ms int64) {
 		return
 	}
 	me := cur
-	me.until = simMs() + ms
+	me.sleeping, me.until = true, simMs()+ms
 	for simMs() < me.until {
 		YieldBlocked()
 		if dead {
 			runtime.Goexit()
 		}
 	}
-	me.until = 0
+	me.sleeping = false
 }
 
 // ---------------------------------------------------------------- channels
